@@ -6,6 +6,7 @@ import Mkdb.Proofs.ReplayMixed
 import Mkdb.Proofs.ReplayCkpt
 import Mkdb.Proofs.ReplayCounter
 import Mkdb.Proofs.BaseCase2
+import Mkdb.Proofs.PtSelfFree6
 /-!
 # C02 — acknowledged statements survive a crash between statements
 
@@ -90,7 +91,9 @@ any history of INSERT statements run live from a store satisfying the catalog in
 the concatenation of their log records on the store *before* the history - the crash in which
 nothing since then had reached the data file - ends without error in a store with the same catalog,
 the same tables page for page, the same row-id counter and allocation frontier as the live run:
-tree inserts with all their splits, root moves and catalog re-pointing are redone exactly. -/
+tree inserts with all their splits, root moves and catalog re-pointing are redone exactly.
+(`hself`, `hf`: the side conditions `PtSelf` / `Fresh`, which hold in every reachable database - see
+`C02_acknowledged_statements_survive_an_unflushed_crash`.) -/
 theorem C02_redo_of_unflushed_inserts (sch : Levels) {s0 sN : Store} {tbls tblsN : List (Bytes × Levels)}
     {stmts : List Stmt} {logs : List WalRec} (run : LiveRun sch s0 tbls stmts sN tblsN logs)
     (pt : Levels) (h : Cat s0 pt sch tbls) (hself : PtSelf pt) (hf : Fresh s0 tbls) :
@@ -145,7 +148,14 @@ from a database whose log is empty; replay the log the statements wrote on the s
 before them - the crash in which nothing since then reached the data file; the replay ends without
 error in a store that abstracts to the very plain database the live run ended in: every table holds
 exactly the effects of all acknowledged statements, and the row-id counter, the allocation frontier
-and the catalog root are the live ones (later statements never reuse a row id). -/
+and the catalog root are the live ones (later statements never reuse a row id).
+The two side conditions are invariants of every database a history reaches from CREATE DATABASE, not
+assumptions about a region (`C02_side_conditions_hold_in_every_reachable_database`): `hself` (`PtSelf`):
+the row the page table holds about itself names a page of the page table - true also after the page
+table has split and that row, which nothing ever rewrites, has gone stale (it then names the old root,
+now the leftmost leaf; until W10 `PtSelf` read "names the root" and excluded those databases); `hf`
+(`FreshM`): every page of every user table is older than the LSN counter, and nothing lies at offset 0.
+Witness with a split page table: `C02_crash_recovery_with_a_split_page_table`. -/
 theorem C02_acknowledged_statements_survive_an_unflushed_crash (sch : Levels) {db0 dbN : Engine.DB}
     {sdb0 sdbN : Spec.SDB} {stmts : List EStmt}
     (run : SpecRun sch db0 sdb0 stmts dbN sdbN) (hwal : db0.wal = [])
@@ -159,7 +169,7 @@ theorem C02_acknowledged_statements_survive_an_unflushed_crash (sch : Levels) {d
   crash_recovery_spec sch run hwal pt tbls hA hself hf
 
 /-- **C02.mixed_history_is_redone**: the same at the storage level, for any interleaving of row inserts,
-updates and deletes over several tables. -/
+updates and deletes over several tables (same side conditions). -/
 theorem C02_mixed_history_is_redone (sch : Levels) {s0 sN : Store} {tbls tblsN : List (Bytes × Levels)}
     {stmts : List RStmt} {logs : List WalRec} (run : LiveRunM sch s0 tbls stmts sN tblsN logs)
     (pt : Levels) (h : Cat s0 pt sch tbls) (hself : PtSelf pt) (hf : FreshM s0 tbls) :
@@ -179,7 +189,8 @@ open Mkdb.Engine Mkdb.Tree Mkdb.Page Mkdb.Generated
 `C02_acknowledged_statements_survive_an_unflushed_crash`, but the database the statements start from
 may carry any log whose records are already applied on it and behind its counters - what every flush
 and every recovery leaves (`C02_rounds_*`).  The WHOLE log - old records, then the records of the
-statements - is replayed on the store the statements started from. -/
+statements - is replayed on the store the statements started from.  (`hself`, `hf`: see
+`C02_acknowledged_statements_survive_an_unflushed_crash`; they hold in every reachable database.) -/
 theorem C02_crash_after_a_checkpoint (sch : Levels) {db0 dbN : Engine.DB} {sdb0 sdbN : Spec.SDB} {stmts : List EStmt}
     (run : SpecRun sch db0 sdb0 stmts dbN sdbN)
     (pt : Levels) (tbls : List (Bytes × Levels)) (hA : AbsV db0.store pt sch tbls sdb0)
@@ -198,8 +209,10 @@ theorem C02_crash_after_a_checkpoint (sch : Levels) {db0 dbN : Engine.DB} {sdb0 
 (any page write order) or `statements ; crash ; start-up recovery` (`Engine.recover`: replay of the
 whole log on the reopened data file, LSN bump, two flushes), starting from a checkpointed database
 (`Ckpt`: abstraction to the plain database, all catalog pages clean and in the data file, every log
-record applied and behind the counters) end in a checkpointed database for the plain database of ALL
-statements acknowledged so far. -/
+record applied and behind the counters; with the side conditions `PtSelf`, `FreshM` of the replay
+theorems) end in a checkpointed database for the plain database of ALL statements acknowledged so far.
+(`Rounds` has no CREATE TABLE; CREATE TABLE keeps `Ckpt` too: `C02_create_table_keeps_the_checkpoint_invariant`,
+and both together: `C02_histories_with_create_table_stay_checkpointed`.) -/
 theorem C02_rounds_keep_the_checkpoint_invariant {sch : Levels} {db db' : Engine.DB} {sdb sdb' : Spec.SDB}
     (hist : Rounds sch db sdb db' sdb') {pt : Levels} {tbls : List (Bytes × Levels)}
     (h : Ckpt sch db sdb pt tbls) : ∃ pt' tbls', Ckpt sch db' sdb' pt' tbls' :=
@@ -273,5 +286,117 @@ theorem C02_rounds_example_from_create_database : ∃ db1 dbR1 db2 dbR2 pt2 tbls
     Engine.recover db2 [] [] = .ok dbR2 ∧ dbR2.wal = db2.wal ∧
     Ckpt schT dbR2 sdbA2 pt2 tbls2 ∧ Rounds schT tableDB sdbA0 dbR2 sdbA2 :=
   real_rounds_example
+
+end Mkdb.Store
+
+namespace Mkdb.Store
+open Mkdb.Engine Mkdb.Tree Mkdb.Page Mkdb.Generated
+
+/-- **C02.create_table_keeps_the_checkpoint_invariant**: from a checkpointed database (`Ckpt`) whose
+`sys_schema` has no rows for unknown names (`NoStale`), a CREATE TABLE the plain model accepts - fresh
+name that is not a catalog table, per-column checks and catalog-row checks passed, fuel and file-size
+room - succeeds, writes no log record, and leaves a checkpointed database for the plain database with
+the new empty table.  In particular `PtSelf` and `FreshM`, the side conditions of the crash theorems,
+hold again - whether or not this CREATE TABLE split the page table and left its self-row stale.
+Excluded: nothing beyond the acceptance conditions (`hpd` … `hbig` hold for every catalog below some
+sixty B-tree levels and files below 2^63 bytes). -/
+theorem C02_create_table_keeps_the_checkpoint_invariant {db : Engine.DB} {sdb : Spec.SDB} {pt sch : Levels}
+    {tbls : List (Bytes × Levels)} (h : Ckpt sch db sdb pt tbls) (hns : NoStale sch tbls) (name : Bytes)
+    (cols : List Sql.ColDef) (order : List Nat)
+    (hfind : Spec.findTable sdb name = none) (hn1 : name ≠ sysPages) (hn2 : name ≠ sysSchema)
+    (hfld : checkFieldsFrom [] (cols.map Engine.colTypeToField) = none)
+    (hchk : checkCatalogRows (cols.map Engine.colTypeToField) name = none)
+    (hpd : pt.inner.length + 3 ≤ treeFuel) (hpl : pt.leaves.length + 1 ≤ scanFuel)
+    (hsd : sch.inner.length + cols.length + 2 ≤ treeFuel) (hsl : sch.leaves.length + cols.length ≤ scanFuel)
+    (hbig : db.store.hdr.nextFree + 262144 * cols.length + 262144 ≤ 9223372036854775807) :
+    ∃ db' pt' sch' tbls', evalStmt db order (.createTable name cols) = .ok () db' ∧ db'.wal = db.wal ∧
+      Ckpt sch' db' (sdb ++ [⟨name, cols.map Spec.colField, []⟩]) pt' tbls' ∧ NoStale sch' tbls' ∧
+      PtSelf pt' ∧ FreshM db'.store tbls' := by
+  obtain ⟨db', pt', sch', tbls', e, hw, hk, hns', _⟩ := h.createTable_ok hns name cols order hfind hn1 hn2 hfld
+    hchk hpd hpl hsd hsl hbig
+  exact ⟨db', pt', sch', tbls', e, hw, hk, hns', hk.self, hk.fresh⟩
+
+/-- non-vacuity: the database CREATE DATABASE leaves meets the hypotheses for `CREATE TABLE t (a INT)` -/
+example : Ckpt schNew newDB [] ptNew [] ∧ NoStale schNew [] ∧ Spec.findTable [] tname = none ∧
+    checkCatalogRows (acols.map Engine.colTypeToField) tname = none :=
+  ⟨ckpt_newDB, noStale_new, rfl, acheck⟩
+
+/-- **C02.histories_with_create_table_stay_checkpointed**: a history `HistCT` alternates rounds (`Rounds`:
+row statements, then a flush or a crash with recovery) and accepted CREATE TABLEs.  From a checkpointed
+database without stale `sys_schema` rows, every database such a history reaches is checkpointed - for the
+plain database of ALL acknowledged statements, CREATE TABLEs included - so the crash theorems
+(`C02_crash_after_a_checkpoint`, `C02_rounds_no_recovery_fails`, `C03_*`) apply at every point of it. -/
+theorem C02_histories_with_create_table_stay_checkpointed {sch0 sch : Levels} {db0 db : Engine.DB}
+    {sdb0 sdb : Spec.SDB} (hist : HistCT sch0 db0 sdb0 sch db sdb) {pt0 : Levels} {tbls0 : List (Bytes × Levels)}
+    (h : Ckpt sch0 db0 sdb0 pt0 tbls0) (hns : NoStale sch0 tbls0) :
+    ∃ pt tbls, Ckpt sch db sdb pt tbls ∧ NoStale sch tbls :=
+  histCT_ckpt hist h hns
+
+/-- **C02.side_conditions_hold_in_every_reachable_database**: every database reached from the one CREATE
+DATABASE leaves (`newDB`) by rounds and accepted CREATE TABLEs (`HistCT`) is checkpointed; in particular
+the two side conditions of the concrete crash theorems hold in it: the self-row of the page table names
+a page of the page table (`PtSelf`), every page of every user table is older than the LSN counter
+(`FreshM`).  And no recovery fails: after any further accepted row statements a crash is recovered from,
+and the recovered store abstracts to the plain database of all acknowledged statements.
+(Histories of the engine's statements; a session additionally routes CREATE DATABASE / USE: C17.) -/
+theorem C02_side_conditions_hold_in_every_reachable_database {sch : Levels} {db : Engine.DB} {sdb : Spec.SDB}
+    (hist : HistCT schNew newDB [] sch db sdb) :
+    (∃ pt tbls, Ckpt sch db sdb pt tbls ∧ NoStale sch tbls ∧ PtSelf pt ∧ FreshM db.store tbls) ∧
+    ∀ stmts dbN sdbN o1 o2, SpecRun sch db sdb stmts dbN sdbN →
+      ∃ db2, Engine.recover dbN o1 o2 = .ok db2 ∧ HistCT schNew newDB [] sch db2 sdbN ∧
+        ∃ pt2 tbls2, AbsV db2.store pt2 sch tbls2 sdbN ∧ ∀ r ∈ db2.wal, Applied tbls2 db2.store r :=
+  ⟨histCT_from_create_database hist, fun _ _ _ o1 o2 run => histCT_recover hist run o1 o2⟩
+
+/-- **C02.crash_recovery_with_a_split_page_table** (the witness in the region the old `PtSelf` excluded;
+every state is an output of the model).  `CREATE DATABASE`; `CREATE TABLE t1 (a INT)` … `CREATE TABLE t8
+(a INT)` give `db8` (`runCreates`, evaluated by the kernel): all eight are accepted, `db8` is reached by a
+history `HistCT` and is checkpointed for the plain database `sdb8` of eight empty tables.  With the seventh
+table the page table split: its root is page 53248, while its row about itself still reads `(sys_pages,
+4096)` - the reading of `PtSelf` before W10 (`PtSelfRoot`) is FALSE here, the present one true.  Then
+`INSERT INTO t1 VALUES (1), …, (9)`: accepted; the ninth row splits the root leaf of `t1` (page 12288),
+the root moves, and the log ends with the UPDATE record that re-points the catalog row of `t1` - for
+page 4096, the page the stale self-row names and lives on.  Crash with nothing flushed: the log replayed
+on the store before the statement gives a store that abstracts to the plain database with the nine rows,
+with the live allocation frontier, row-id counter and catalog root; start-up recovery succeeds, keeps the
+log and leaves a checkpointed database for that plain database. -/
+theorem C02_crash_recovery_with_a_split_page_table : ∃ sch8 pt8 tbls8,
+    runCreates newDB names8 = some db8 ∧ HistCT schNew newDB [] sch8 db8 sdb8 ∧
+    Ckpt sch8 db8 sdb8 pt8 tbls8 ∧
+    (sysPages, 4096) ∈ ptEntries pt8 ∧ rootOff pt8 = 53248 ∧ ¬ PtSelfRoot pt8 ∧ PtSelf pt8 ∧
+    SpecRun sch8 db8 sdb8 [.insert [116, 49] [] rows9] db9 sdb9 ∧
+    db9.wal.map (fun r => (r.op, r.page)) =
+      [(c_OpInsert, 12288), (c_OpInsert, 12288), (c_OpInsert, 12288), (c_OpInsert, 12288), (c_OpInsert, 12288),
+       (c_OpInsert, 12288), (c_OpInsert, 12288), (c_OpInsert, 12288), (c_OpInsert, 12288), (c_OpUpdate, 4096)] ∧
+    (∃ ptN tblsN rN, replayAll db9.wal db8.store = (rN, none, false) ∧
+      AbsV db9.store ptN sch8 tblsN sdb9 ∧ AbsV rN ptN sch8 tblsN sdb9 ∧
+      rN.hdr.nextFree = db9.store.hdr.nextFree ∧ rN.hdr.lastKey = db9.store.hdr.lastKey ∧
+      rN.hdr.ptRoot = db9.store.hdr.ptRoot) ∧
+    (∃ dbR ptR tblsR, Engine.recover db9 [] [] = .ok dbR ∧ dbR.wal = db9.wal ∧
+      Ckpt sch8 dbR sdb9 ptR tblsR) := by
+  obtain ⟨sch8, pt8, tbls8, erun, hk, _, run, hre, hrec⟩ := split_page_table_crash
+  obtain ⟨sch8', pt8', tbls8', _, hist, hg⟩ := eight_tables
+  obtain ⟨_, habs, _⟩ := hk.abs
+  obtain ⟨_, habs', _⟩ := hg.ck.abs
+  have es : sch8' = sch8 := habs'.cat.sch_unique habs.cat
+  have ep : pt8' = pt8 := habs'.cat.pt_unique habs.cat
+  subst es
+  subst ep
+  obtain ⟨s1, s2, s3, s4⟩ := db8_stale hg
+  exact ⟨_, _, tbls8, erun, hist, hk, s1, s2, s3, s4, run, db9_log, hre, hrec⟩
+
+/-- **C02.each_side_condition_is_needed** (kernel evaluations of the model on two hand-made, unreachable
+stores; `Cat` excludes neither).  `FreshM`: on a store whose table page carries LSN 100 while the LSN
+counter stands at 7, the record of an INSERT is stamped 7 and the replay skips it - live one row, replayed
+none, no error.  `PtSelf`: on a store whose page-table self-row names the root of table `t` (12288), nine
+inserts move that root to 20480; replaying the nine INSERT records without the catalog record re-points
+the self-row instead of the row of `t` (offsets of the rows `sys_pages`, `sys_schema`, `t`: live `[12288,
+8192, 20480]`, replayed `[20480, 8192, 12288]`: the table is cut in half), replaying all ten records leaves
+the self-row rewritten.  On the regular store `st1` both replays reproduce the live state. -/
+theorem C02_each_side_condition_is_needed :
+    (insertThenReplay st1 = some (1, 1, true) ∧ insertThenReplay stStale = some (1, 0, true)) ∧
+    (nineThenReplay st1 9 = some (10, [4096, 8192, 20480], [4096, 8192, 20480], true) ∧
+     nineThenReplay stSelfBad 9 = some (10, [12288, 8192, 20480], [20480, 8192, 12288], true) ∧
+     nineThenReplay stSelfBad 10 = some (10, [12288, 8192, 20480], [20480, 8192, 20480], true)) :=
+  ⟨freshM_is_needed, ptSelf_is_needed⟩
 
 end Mkdb.Store
